@@ -810,8 +810,9 @@ Definition preb (w : world) (o : op) : bool :=
 
 (* well-formedness of an operation in a world: it only mentions streams and units that exist *)
 Definition obj_ok (w : world) (x : obj) : bool := match x with S_ n => n <? nreal w | M_ n => n <? fresh w end.
+(* streams are named directly; placeholders only through the port they sit in *)
 Definition arg_ok (w : world) (a : arg) : bool :=
-  match a with AObj x => obj_ok w x | AAt _ u _ => u <? nunits w | _ => true end.
+  match a with AObj x => is_real x && obj_ok w x | AAt _ u _ => u <? nunits w | _ => true end.
 Definition unit_ok (w : world) (u : nat) : bool := u <? nunits w.
 Definition port_ok (w : world) (p : port) : bool := match p with PArg a => arg_ok w a | _ => true end.
 Definition items_okb (w : world) (o : option (list ditem)) : bool :=
@@ -950,3 +951,11 @@ Definition inv_sideb (w : world) (sd : side) : bool :=
                        | Some u => mem (S_ n) (ports w sd u)
                        | None => true end) (seq 0 (nreal w)).
 Definition invb (w : world) : bool := inv_sideb w SIn && inv_sideb w SOut.
+
+(* a placeholder that can be reached through a port list (placeholders are shared between an outlet list
+   and an inlet list by u1-u2, take_place_of, item assignment) is listed wherever it points *)
+Definition live_back_sideb (w : world) (sd : side) : bool :=
+  forallb (fun v => forallb (fun x => is_real x ||
+                      match ptr w sd x with Some u => mem x (ports w sd u) | None => true end)
+                    (ports w (other sd) v)) (seq 0 (nunits w)).
+Definition live_backb (w : world) : bool := live_back_sideb w SIn && live_back_sideb w SOut.
